@@ -229,7 +229,9 @@ def run_one(drv, ex, work, force=False):
     if len(HANGS) >= 3 and not force:
         return Result(ex, [], runner.Run(0, "", ""), skipped=True)
     path = os.path.join(work, "t_%s_%d.ndjson" % (re.sub(r"[^A-Za-z0-9_.-]", "_", ex.id), os.getpid()))
-    r = runner.run(drv, [path, sut.REPO], "\n".join(ex.render()) + "\n", timeout=EXEC_TIMEOUT, leaks=False)
+    # once three executions have timed out, confirmation runs only get a short while (their verdict lies before the hang)
+    r = runner.run(drv, [path, sut.REPO], "\n".join(ex.render()) + "\n",
+                   timeout=EXEC_TIMEOUT if len(HANGS) < 3 else min(EXEC_TIMEOUT, 30), leaks=False)
     lines = []
     if os.path.exists(path):
         with open(path) as f:
